@@ -682,13 +682,13 @@ def c06(ctx):
     return grammar_check(ctx, {"value", "ok_on_semantic_err", "err_on_defined", "profile_diff", "panic", "abort"}, {"*": 5}, {"*": 6},
                          {"assignments": 1, "boundary_pool": True, "full_placeholders": True, "max_assign": 700 if ctx.quick() else 6000,
                           "event_every": 500, "event_cap": 2000, "nontrivial_min_ops": 1, "scope": SCOPE_C06}, evals=["i64"], invs=[],
-                         extra_jobs=chain_jobs(ctx, ["i64"]), sem={"w_quick": 6, "w_thorough": 8, "invs": ("C06Exact",)}, compose={"quick": (4, 3), "thorough": (4, 4), "chains": {"quick": (6, 8, 40), "thorough": (200, 10, 60)}, "join": {"quick": (3, 3), "thorough": (3, 4)}})
+                         extra_jobs=(lambda profile: chain_jobs(ctx, ["i64"])(profile) + cpx_fn_jobs(ctx, profile, e="i64", only_functions=SCOPE_C06["fns"])), sem={"w_quick": 6, "w_thorough": 8, "invs": ("C06Exact",)}, compose={"quick": (4, 3), "thorough": (4, 4), "chains": {"quick": (6, 8, 40), "thorough": (200, 10, 60)}, "join": {"quick": (3, 3), "thorough": (3, 4)}})
 
 def c09(ctx):
     return grammar_check(ctx, {"value", "ok_on_semantic_err", "err_on_defined", "profile_diff", "panic", "abort"}, {"*": 5}, {"*": 6},
                          {"assignments": 1, "boundary_pool": True, "full_placeholders": True, "max_assign": 700 if ctx.quick() else 6000,
                           "event_every": 500, "event_cap": 2000, "nontrivial_min_ops": 1, "scope": SCOPE_C09}, evals=["num"], invs=[],
-                         extra_jobs=chain_jobs(ctx, ["num"]), sem={"w_quick": 6, "w_thorough": 8, "invs": ("C09IntegerWhenFits", "C09Rounding")}, compose={"quick": (3, 3), "thorough": (4, 4), "chains": {"quick": (6, 8, 40), "thorough": (200, 10, 60)}, "join": {"quick": (3, 3), "thorough": (3, 4)}})
+                         extra_jobs=(lambda profile: chain_jobs(ctx, ["num"])(profile) + cpx_fn_jobs(ctx, profile, e="num", only_functions=SCOPE_C09["fns"])), sem={"w_quick": 6, "w_thorough": 8, "invs": ("C09IntegerWhenFits", "C09Rounding")}, compose={"quick": (3, 3), "thorough": (4, 4), "chains": {"quick": (6, 8, 40), "thorough": (200, 10, 60)}, "join": {"quick": (3, 3), "thorough": (3, 4)}})
 
 def base_job(ctx, mode, tag, profile, **kw):
     j = {"mode": mode, "vocab": os.path.join(WORK, "vocab.json"), "shard": 0, "nshards": 1, "start": 0,
@@ -863,9 +863,9 @@ def c17(ctx):
             res[int(i)] = c
         return res, ""
     tdir = os.path.join(FEATPROBE, "target")
-    full, err = build_and_run(all_feats, tdir)
+    full, err = build_and_run(["full_default"], tdir)
     if full is None:
-        raise ToolError("all-features build of the probe failed: " + err)
+        raise ToolError("default (all-features) build of the probe failed: " + err)
     clines = open(corpus, encoding="utf-8").read().split("\n")
     evaluations, compared, fail_probes = len(full), 0, 0
     samples = []
@@ -965,6 +965,7 @@ def c05(ctx):
                                                         "event_every": 500, "event_cap": 2000, "nontrivial_min_ops": 1, "profile": profile, "scope": SCOPE_C05})
         js += replay_jobs(ctx, None, profile + "_fc", {"fclass": fr}, {"profile": profile, "event_every": 0})
         js += chain_jobs(ctx, ["f64"])(profile)
+        js += cpx_fn_jobs(ctx, profile, e="f64", only_functions=SCOPE_C05["fns"])      # the functions of C05's statement on the argument samples of C10
         return js
     f, s = run_jobs(ctx, jobs)
     sv = [(k, r["violated"], r["log"]) for k, r in list(models.items()) + [("MCFloat", fr)] if r["violated"]]
@@ -979,20 +980,22 @@ def c07(ctx):
     return grammar_check(ctx, {"value", "ok_on_semantic_err", "err_on_defined", "profile_diff", "panic", "abort"}, {"*": 5}, {"*": 6},
                          {"assignments": 1, "boundary_pool": True, "full_placeholders": True, "max_assign": 700 if q else 8000,
                           "event_every": 500, "event_cap": 2000, "nontrivial_min_ops": 1, "scope": SCOPE_C07}, evals=["dec"], invs=[], compose={"quick": (4, 3), "thorough": (4, 4), "chains": {"quick": (6, 8, 40), "thorough": (200, 10, 60)}, "join": {"quick": (3, 3), "thorough": (3, 4)}},
-                         sem={"dec": {"quick": (2, 1, 3, 3), "thorough": (2, 2, 4, 1)}, "invs": ("C07Exact",)}, extra_jobs=chain_jobs(ctx, ["dec"]))
+                         sem={"dec": {"quick": (2, 1, 3, 3), "thorough": (2, 2, 4, 1)}, "invs": ("C07Exact",)}, extra_jobs=(lambda profile: chain_jobs(ctx, ["dec"])(profile) + cpx_fn_jobs(ctx, profile, e="dec", only_functions=SCOPE_C07["fns"])))
 
 def chain_jobs(ctx, evals):
     """long left-leaning chains of one precedence level (30-70 terms): grouping by associativity beyond any token bound"""
     n = 300 if ctx.quick() else 20000
     return lambda profile: [base_job(ctx, "chains", "%s_chains_%s" % (profile, e), profile, e=e, n=n, seed=ctx.seed, event_every=25, event_cap=60) for e in evals]
 
-def cpx_fn_jobs(ctx, profile, _memo={}):
-    """the function sweep of C10 restricted to eval_complex (every spelling on the argument samples, the boundary grids, powers of negative real bases)"""
+def cpx_fn_jobs(ctx, profile, _memo={}, e="cpx", only_functions=None):
+    """the function sweep of C10 restricted to one evaluator (every spelling on the argument samples, the boundary grids, powers of negative
+    real bases), optionally to the functions a statement names"""
     if "r" not in _memo:
         vlib.vocab_json()
         _memo["r"] = simple_model(ctx, "MCVocab", "INIT Init\nNEXT Next\nCHECK_DEADLOCK FALSE\nINVARIANT Spelled ConstSpelled NeedsParen Emit\n", "vocab")
-    return [dict(base_job(ctx, "replay", "%s_cfn_%d" % (profile, sh), profile, beh=_memo["r"]["beh_path"], e="f64", shard=sh, nshards=4, only_evaluator="cpx",
-                          samples_per_pair=100 if ctx.quick() else 10000, event_every=0, event_cap=0)) for sh in range(4)]
+    extra = {"only_functions": only_functions} if only_functions else {}
+    return [dict(base_job(ctx, "replay", "%s_%sfn_%d" % (profile, e, sh), profile, beh=_memo["r"]["beh_path"], e="f64", shard=sh, nshards=4, only_evaluator=e,
+                          samples_per_pair=100 if ctx.quick() else 10000, event_every=0, event_cap=0, **extra)) for sh in range(4)]
 
 def c08(ctx):
     q = ctx.quick()
